@@ -425,6 +425,9 @@ def _classify(an: Analysis, module, name, value, cls):
                     isinstance(a, (ast.Name, ast.Attribute, ast.Constant, ast.Call))
                     for a in value.args[1:]):
                 return 'ok', 'alias selected from a constant table'
+        if isinstance(value.func, ast.Name) and value.func.id == 'staticmethod' and \
+                len(value.args) == 1 and isinstance(value.args[0], ast.Call):
+            return _classify(an, module, name, value.args[0], cls)
         binding = an.p.resolve_dotted(module, value.func)
         if binding and binding[0] == 'ext' and binding[1] in (
                 'operator.attrgetter', 'operator.itemgetter', 'operator.methodcaller') and \
